@@ -1467,6 +1467,8 @@ class Tensor(object):
 
         for i in range(key_length):
             if not isinstance(key[i], slice) and not hasattr(key[i], "__len__"):
+                if key[i] < 0:
+                    key[i] += self.shape[i]
                 key[i] = slice(key[i], key[i] + 1)
 
             subtract_core = torch.zeros_like(self.cores[i])
